@@ -110,6 +110,7 @@ func QueryMessageDescByName(messageName string) *MessageDesc {
 func SerializeRemotingMessage(codec Codec, writer *Writer, desc *MessageDesc, message any) error {
 	dw := NewWriterFromPool()
 	defer ReleaseWriterToPool(dw)
+	dw.nesting = writer.nesting + 1
 	if err := desc.writer(message, dw, codec); err != nil {
 		return err
 	}
